@@ -34,7 +34,12 @@ import numpy as np
 
 from props import c02
 
-RULE = ('per format (v1, v2, v3 HDF5 files through katdal.open; v4 telstate + npy chunk store through VisibilityDataV4) '
+RULE = ('per format (v1, v2, v3 HDF5 files through katdal.open; v4 telstate + npy chunk store through VisibilityDataV4 or '
+        'katdal.open of an .rdb, 70 % opened WITH preselect=dict(dumps=slice, channels=slice): 4-12 stored dumps x 3-9 '
+        'stored channels (odd and even), keys channels / dumps / both / none, bounds normalised / None / negative, the '
+        'four parity strata (stored channel count) x (first + last of the channel range) with dropped first dumps and a '
+        'non-zero time_offset in every run; v2 files of version 2.0 / 2.1; v3 frequency-axis strata L / fake UHF / real '
+        'UHF / faulty CBF bandwidth / no band / unknown band, then both centre overrides; keepdims False / True) '
         'generated observation models (3-12 dumps, 2-8 channels, 2-3 antennas = 10-21 products, scan / compscan / '
         'target structure, v1 scan groups, duplicate final dump, keepdims, lower / upper sideband, centroid / start '
         'timestamps, time_offset, v4 chunking and shuffled baseline ordering; v1 / v2 / v3: dump times on a regular or '
@@ -44,9 +49,12 @@ RULE = ('per format (v1, v2, v3 HDF5 files through katdal.open; v4 telstate + np
         'x histories of 8-16 operations drawn from {select(**kw) with all criterion kinds / argument forms / resets of '
         'the C02 generator incl. flags= and weights=, acquisition of vis / flags / weights / raw_flags / timestamps '
         'indexers (kept for later), x[ix2] on ANY previously acquired indexer with ints (incl. negative), slices, '
-        'boolean masks and integer lists per axis (forms the indexer class supports), observation of shape / dumps / '
+        'boolean masks and integer lists per axis (forms the indexer class supports; 7 % scalar on every axis), elements '
+        'against the labelled STORED arrays, true dimensionality of the answer (v2 / v3 / v4), observation of shape / dumps / '
         'channels / corr_products / timestamps / freqs / sensor.timestamps / every numeric sensor, d.az, d.el, a '
-        'categorical sensor and d.mjd against the stored histories evaluated at the timestamps of the selected dumps / '
+        'categorical sensor and d.mjd against the stored histories evaluated at the timestamps of the selected dumps; '
+        'freqs / channel_freqs / sideband against the documented axis of the stored attributes (file attributes v1-v3, '
+        'telstate v4), timestamps of v4 against the documented times of the stored dumps / '
         'scan_index and target against the unselected arrays}; a case is one '
         'operation in its history; non-trivial when it is a read or observation under a selection that is neither '
         'everything nor empty, or a read through an indexer acquired before a later select(); distinct by (data set, '
@@ -59,9 +67,11 @@ ASSUMPTIONS = ['stored samples are labels (small integers exactly representable 
                'with the same numpy / katpoint functions applied to the exact expected values; the activity arrays of '
                'antennas with the same stored history are compared with each other from dump 1 on (the readers fold a '
                'first dump before a slew into the slew on the reference antenna only)',
-               'v4 timestamps are what TelstateDataSource serves (always regular; C17 owns their computation)',
-               'the singleton-dimension convention of the answer (keepdims, v1 always 3-d, dropped axes) is not '
-               'compared: answers are brought to the canonical 3-axis shape',
+               'v4 timestamps and frequencies are the documented ones of the telstate attributes (sync_time, first_timestamp, '
+               'int_time, center_freq, bandwidth, n_chans; lite RDB, recent capture: no CBF-dump fix; always regular)',
+               'elements are compared in the canonical 3-axis form; the dimensionality of the answer itself (scalar-indexed '
+               'axes dropped; all three kept under keepdims=True of v2 / v3) is compared for v2 / v3 / v4, not for H5DataV1 '
+               '(its concatenation keeps the time axis and treats a scalar first index differently from the others)',
                'second-stage indices are in range and of a form the indexer class supports (LazyIndexer: no negative '
                'steps, strictly increasing lists; C04 / C05 own the indexer classes); a read that selects at least one '
                'element must be answered; a read that selects nothing may raise (v1: ConcatenatedLazyIndexer on empty '
@@ -134,7 +144,7 @@ def gen_grid(rng, T):
     return kind, g
 
 
-def gen_spec(rng, fmt):
+def gen_spec(rng, fmt, want=None):
     T = rng.randint(3, 12)
     F = rng.choice([2, 3, 4, 5, 6, 8])
     spec = dict(fmt=fmt, T=T, F=F, dt=rng.choice([1.0, 2.0, 4.0, 8.0]), off=rng.choice([0.0, 0.0, 0.5, 2.0]),
@@ -161,10 +171,32 @@ def gen_spec(rng, fmt):
     if fmt in ('v2', 'v3'):
         spec['dup'] = rng.random() < 0.5
         spec['keepdims'] = rng.random() < 0.5
+    if fmt == 'v2':
+        spec['old'] = rng.random() < 0.4          # version 2.0: centre = RFE7 LO1 frequency - 4200 MHz
+        spec['centre'] = rng.choice([1822e6, 1328e6])
     if fmt == 'v3':
-        spec['lower'] = rng.random() < 0.4
-        if spec['lower']:
+        # the frequency axis: receiver band, bandwidth attribute (incl. the faulty CBF value), L0 center_freq
+        # attribute, centre_freq= argument.  'fake' = UHF receiver behind the 856 MHz digitiser: flipped spectrum
+        axis = rng.choice(V3_AXES + ['l', 'fake'])
+        if want is not None:
+            axis = V3_AXES[want[0] % len(V3_AXES)]
+        spec['axis'] = axis
+        spec['band'] = dict(l='l', l_bug='l', fake='u', fake_bug='u', uhf='u', none='', s='s')[axis]
+        if axis in ('fake', 'fake_bug', 'l_bug'):
             spec['F'] = rng.choice([2, 4, 8])
+            spec['bandwidth'] = 857152196.0 if axis.endswith('_bug') else 856e6
+        elif axis == 'uhf':
+            spec['bandwidth'] = 544e6 / 4096 * spec['F']
+        else:
+            spec['bandwidth'] = 856e6 / 4096 * spec['F']
+        spec['lower'] = axis in ('fake', 'fake_bug')
+        spec['l0_centre'] = rng.choice([None, None, None, 1100e6])
+        spec['centre_param'] = rng.choice([None, None, 1284e6, 950e6]) if axis not in ('none', 's') else \
+            rng.choice([None, 1284e6, 1284e6])
+        if want is not None:
+            # strata: every axis kind once with nothing overriding the receiver table, then both overrides at once
+            spec['l0_centre'] = 1100e6 if want[1] else None
+            spec['centre_param'] = 950e6 if want[1] else None
         spec['centroid'] = rng.random() < 0.4
         spec['cbf_div'] = rng.choice([1, 2, 4])
     if fmt == 'v4':
@@ -172,10 +204,74 @@ def gen_spec(rng, fmt):
         spec['bls_seed'] = rng.choice([None, rng.randrange(1000)])
         spec['nants'] = 2
         spec['rdb'] = rng.random() < 0.5          # through katdal.open of an .rdb file next to the chunk store
+        if want is not None or rng.random() < PRE_FRACTION:
+            gen_pre(rng, spec, want)
     # v4 synthesises its timestamps from first_timestamp and int_time: always a regular grid
     spec['grid_kind'], spec['grid'] = gen_grid(rng, T) if fmt != 'v4' else ('regular', [4 * i for i in range(T)])
     spec['sseed'] = rng.randrange(1 << 20)
     return spec
+
+
+PRE_FRACTION = 0.7
+V3_AXES = ['l', 'fake', 'uhf', 'fake_bug', 'l_bug', 'none', 's']
+
+
+def gen_range(rng, n, lo, min_start=0):
+    """A non-empty range a:b inside an axis of length n with at least `lo` elements (or all n, if fewer), and one of the
+    ways of writing it as slice(start, stop): normalised, None for an end that coincides with the axis end, negative."""
+    lo = min(lo, n - min_start)
+    a = rng.randint(min_start, n - lo)
+    b = rng.randint(a + lo, n)
+    if rng.random() < 0.25 and not min_start:
+        a = 0
+    if rng.random() < 0.25:
+        b = n
+    def write(v, end):
+        forms = [v]
+        if v == end:
+            forms.append(None)
+        if 0 < v < n:
+            forms.append(v - n)
+        return rng.choice(forms)
+    return (a, b), [write(a, 0), write(b, n)]
+
+
+def gen_pre(rng, spec, want=None):
+    """spec['T'], spec['F'] become the STORED numbers of dumps / channels (odd and even channel counts); spec['pre'] the
+    preselect dict as {'dumps': [start, stop] | absent, 'channels': [start, stop] | absent}; spec['sub'] the normalised
+    (a, b, c, d).  Ranges of all parities of first / last / first + last against odd and even stored channel counts."""
+    T = spec['T'] = rng.randint(4, 12)
+    F = spec['F'] = rng.choice([3, 4, 5, 6, 7, 8, 9])
+    keys = rng.choice(['both', 'both', 'both', 'channels', 'channels', 'dumps', 'none'])
+    if want is not None:
+        # stratum (parity of the stored channel count, parity of first + last of the preselected channel range)
+        F = spec['F'] = rng.choice([3, 5, 7, 9] if want[0] else [4, 6, 8])
+        keys = 'both'
+        # the first dumps of the capture are dropped and the data set is opened with a time_offset
+        spec['off'] = rng.choice([0.5, 2.0])
+    pre = {}
+    a, b, c, d = 0, T, 0, F
+    if keys in ('both', 'dumps'):
+        (a, b), pre['dumps'] = gen_range(rng, T, 3 if rng.random() < 0.8 else 1, min_start=1 if want is not None else 0)
+    if keys in ('both', 'channels'):
+        for _ in range(50):
+            (c, d), pre['channels'] = gen_range(rng, F, 2 if rng.random() < 0.85 else 1)
+            if want is None or (c + d) % 2 == want[1]:
+                break
+    spec['pre'] = pre
+    spec['sub'] = [a, b, c, d]
+    # sensor events are placed per STORED dump
+    spec['acts'] = gen_events(rng, T, c02.STATES)
+    spec['targets'] = gen_events(rng, T, TARGETS)
+    spec['labels'] = gen_events(rng, T, c02.LABELS[1:])
+    spec['grid'] = [4 * i for i in range(T)]
+
+
+def pre_kwargs(pre):
+    return dict((k, slice(v[0], v[1])) for k, v in pre.items())
+
+
+V4_SYNC, V4_FIRST, V4_CENTRE, V4_CW = 1600000000.0, 123.0, 1284e6, 208984.375
 
 
 class C01Observation(c02.DataSetObservation):
@@ -184,7 +280,7 @@ class C01Observation(c02.DataSetObservation):
     wrote into the file.  select(timerange=...) of the model is thereby decided by the stored timestamps of the
     dumps, while katdal decides it with whatever its sensor cache holds."""
 
-    def __init__(self, d, ts):
+    def __init__(self, d, ts, freqs=None):
         self.d = d
         d.select()
         ts = np.asarray(ts, dtype=float)
@@ -199,9 +295,11 @@ class C01Observation(c02.DataSetObservation):
         self.kants = list(sub.ants)
         self.cps = [(str(a), str(b)) for a, b in sub.corr_products]
         self.B = len(self.cps)
-        self.F = int(spw.num_chans)
-        w = float(spw.channel_width) / 4
-        freqs = np.asarray(spw.channel_freqs, dtype=float)
+        # v4: the frequencies are GIVEN as well (documented frequencies of the stored channels the data set was opened
+        # on, from the telstate attributes), so select(freqrange=) of the model is decided by them
+        w = (float(spw.channel_width) if freqs is None else V4_CW) / 4
+        freqs = np.asarray(spw.channel_freqs if freqs is None else freqs, dtype=float)
+        self.F = len(freqs)
         self.fbase = float(freqs.min()) - 8 * w
         fz = (freqs - self.fbase) / w
         assert np.all(fz == np.round(fz)), 'channel frequencies are not on the quarter-channel grid'
@@ -285,6 +383,7 @@ class Fixture:
         self.tmp = v4.scratch_dir(tag)
         self.file = None
         self.dup = bool(spec.get('dup'))
+        self.pre, self.sub = None, None
         self.upper, self.centroid, self.segs = True, False, []
         self.cbf_dump = dt
         grid4 = spec.get('grid') or [4 * i for i in range(T)]
@@ -296,16 +395,20 @@ class Fixture:
         try:
             if fmt == 'v1':
                 fn = os.path.join(self.tmp, '1200000000.h5')
-                self.st, _, ts = cf.write_v1(fn, [tuple(s) for s in spec['scans']], F=F, dt=dt, grid4=grid4, hist=hist)
+                self.st, wprods, ts = cf.write_v1(fn, [tuple(s) for s in spec['scans']], F=F, dt=dt, grid4=grid4, hist=hist)
                 self.d = katdal.open(fn, time_offset=off)
                 self.segs = [s[4] for s in spec['scans']]
                 self.stored_ts = list(ts)
+                # DBE input strings '<k><x|y>' of antenna k + 1, polarisation H | V (the attributes written per antenna)
+                dbe = lambda t: 'ant%d%s' % (int(t[0]) + 1, 'h' if t[1] == 'x' else 'v')      # noqa: E731
+                wprods = [(dbe(p[:2]), dbe(p[2:])) for p in wprods]
                 ant0 = 'ant1'
             elif fmt == 'v2':
                 ants = ('ant1', 'ant2', 'ant3')[:spec['nants']]
                 fn = os.path.join(self.tmp, '1300000000.h5')
-                self.st, _, ts = cf.write_v2(fn, T=T, F=F, ants=ants, dt=dt, acts=spec['acts'], targets=spec['targets'],
-                                             labels=spec['labels'], dup_last=self.dup, grid4=grid4, hist=hist)
+                self.st, wprods, ts = cf.write_v2(fn, T=T, F=F, ants=ants, dt=dt, acts=spec['acts'], targets=spec['targets'],
+                                             labels=spec['labels'], dup_last=self.dup, grid4=grid4, hist=hist,
+                                             old=bool(spec.get('old')), centre=spec.get('centre', 1822e6))
                 self.d = katdal.open(fn, time_offset=off, keepdims=spec['keepdims'])
                 self.stored_ts = list(ts)
                 ant0 = 'ant1'
@@ -314,10 +417,20 @@ class Fixture:
                 fn = os.path.join(self.tmp, '1500000000.h5')
                 self.cbf_dump = dt / spec['cbf_div']
                 self.upper, self.centroid = not spec['lower'], spec['centroid']
-                self.st, _, ts = cf.write_v3(fn, T=T, F=F, ants=ants, dt=dt, acts=spec['acts'], targets=spec['targets'],
+                if 'axis' not in spec:        # witnesses recorded before the frequency axis was modelled
+                    spec = dict(spec, band='u' if spec['lower'] else '', l0_centre=None,
+                                bandwidth=856e6 if spec['lower'] else 856e6 / 4096 * F,
+                                centre_param=428e6 if spec['lower'] else 1284e6)
+                    self.spec = spec
+                self.st, wprods, ts = cf.write_v3(fn, T=T, F=F, ants=ants, dt=dt, acts=spec['acts'], targets=spec['targets'],
                                              labels=spec['labels'], dup_last=self.dup, centroid=self.centroid,
-                                             lower=spec['lower'], cbf_dt=self.cbf_dump, grid4=grid4, hist=hist)
-                kw = dict(band='u', centre_freq=428e6) if spec['lower'] else dict(centre_freq=1284e6)
+                                             lower=spec['lower'], cbf_dt=self.cbf_dump, grid4=grid4, hist=hist,
+                                             bandwidth=spec['bandwidth'], l0_centre=spec['l0_centre'])
+                kw = {}
+                if spec['band']:
+                    kw['band'] = spec['band']
+                if spec['centre_param'] is not None:
+                    kw['centre_freq'] = spec['centre_param']
                 self.d = katdal.open(fn, time_offset=off, keepdims=spec['keepdims'], **kw)
                 self.stored_ts = list(ts)
                 ant0 = 'm000'
@@ -339,12 +452,16 @@ class Fixture:
                     ts['capture_block_id'] = cbid
                     ts['stream_name'] = stream
                 self.x = v4.build_v4(T=T, F=F, ants=ants, int_time=dt, tmp=os.path.join(self.tmp, 'v4'), bls_ordering=bls,
-                                     bandwidth=208984.375 * F,
+                                     bandwidth=V4_CW * F, center_freq=V4_CENTRE, sync_time=V4_SYNC,
+                                     first_timestamp=V4_FIRST,
                                      arrays=dict(correlator_data=self.st['vis'], flags=self.st['flags'],
                                                  weights=self.st['w_lo'], weights_channel=self.st['w_hi']),
                                      chunks=chunks, acts=tuple(spec['acts']), targets=tuple(spec['targets']),
-                                     labels=tuple(spec['labels']), open_kwargs=dict(time_offset=off),
-                                     extra_sensors=extra, telstate_hook=hook, construct=not spec.get('rdb'))
+                                     labels=tuple(spec['labels']), extra_sensors=extra, telstate_hook=hook,
+                                     construct=False)
+                # opened WITH the preselection (TelstateDataSource + VisibilityDataV4, or katdal.open of an .rdb)
+                self.pre = spec.get('pre')
+                pkw = dict(preselect=pre_kwargs(self.pre)) if self.pre is not None else {}
                 if spec.get('rdb'):
                     from katsdptelstate.rdb_writer import RDBWriter
                     rdir = os.path.join(self.tmp, 'v4', self.x.cbid)
@@ -352,10 +469,16 @@ class Fixture:
                     path = os.path.join(rdir, '%s_%s.rdb' % (self.x.cbid, self.x.stream))
                     with RDBWriter(path) as w:
                         w.save(self.x.telstate)
-                    self.d = katdal.open(path, time_offset=off)
+                    self.d = katdal.open(path, time_offset=off, **pkw)
                 else:
-                    self.d = self.x.d
-                self.stored_ts = [float(t) for t in self.d.source.timestamps]     # what the data source serves
+                    self.d = v4.reopen(self.x, dict(pkw), dict(pkw, time_offset=off))
+                # what is STORED, independently of the opened data set: telstate attributes of the two axes
+                a, b, c, dd = self.sub = spec.get('sub') or [0, T, 0, F]
+                self.stored_T, self.stored_F = T, F
+                T, F = b - a, dd - c
+                self.stored_ts = [V4_SYNC + V4_FIRST + k * dt + off for k in range(a, b)]
+                wprods = bls
+                v4_freqs = [V4_CENTRE + (k - self.stored_F // 2) * V4_CW for k in range(c, dd)]
                 ant0 = 'm000'
             self.file = getattr(self.d, 'file', None)
             d = self.d
@@ -364,11 +487,25 @@ class Fixture:
             self.exp_ts = dict(v1=lambda: st_ts / 1000.0 + 0.5 * dt + off, v2=lambda: st_ts + 0.5 * dt + off,
                                v3=lambda: st_ts + (0.0 if self.centroid else 0.5 * self.cbf_dump) + off,
                                v4=lambda: st_ts)[fmt]()
-            self.ob = C01Observation(d, self.exp_ts)     # AssertionError: outside the vocabulary / grid of C02
+            # the frequency axis from what the FILE says (v1 / v2 / v3: wire_1003; v4: telstate attributes, wire_1002)
+            self.axis = None
+            if fmt != 'v4':
+                self.fattrs = self.freq_attrs()
+                self.axis_case = [1003, [FMT_ID[fmt], self.fattrs]]
+                doc_freqs, cw = None, None      # filled in by check_axis (needs the model)
+            else:
+                doc_freqs, cw = v4_freqs, V4_CW
+            self.doc_freqs = doc_freqs
+            # AssertionError: outside the vocabulary / grid of C02
+            self.ob = C01Observation(d, self.exp_ts, freqs=None if fmt != 'v4' else v4_freqs)
             self.T, self.F = T, F
             self.cps_full = [(str(a), str(b)) for a, b in d.subarrays[0].corr_products]
             self.B = len(self.cps_full)
-            self.chan_freqs = np.array(d.spectral_windows[0].channel_freqs)
+            # the product axis as WRITTEN (position b of the stored arrays belongs to stored_cps[b])
+            self.stored_cps = [(str(a), str(b)) for a, b in wprods]
+            # v1 / v2 / v3: the channel frequencies of the (single, whole) spectral window; v4: the documented
+            # frequencies of the stored channels the data set was opened on
+            self.chan_freqs = np.array(v4_freqs if fmt == 'v4' else d.spectral_windows[0].channel_freqs)
             d.select()
             self.sensors = ['Observation/scan_index', 'Observation/target']
             self.full = dict((nm, np.array(d.sensor[nm])) for nm in self.sensors)
@@ -386,6 +523,80 @@ class Fixture:
         return [FMT_ID[self.fmt], self.obs_wire, int(self.dup), int(self.upper), int(self.centroid), list(self.segs),
                 [q(s['dt']), q(self.cbf_dump), q(s['off'])], [q(t) for t in self.stored_ts],
                 [[i, wire_selarg(v)] for i, v in sorted(atoms.items())]]
+
+    def freq_attrs(self):
+        """What was WRITTEN about the frequency axis (wire form of DataSetFreq.fattrs)."""
+        s, F = self.spec, self.spec['F']
+        opt = lambda v: [] if v is None else [q(v)]       # noqa: E731
+        if self.fmt == 'v1':
+            return [q(1822e6), q(1e6), F, 0, codes(''), [], [], []]
+        if self.fmt == 'v2':
+            c = s.get('centre', 1822e6)
+            return [q(c + 4200e6 if s.get('old') else c), q(390625.0 * F), F, int(bool(s.get('old'))), codes(''), [], [], []]
+        return [q(0), q(s['bandwidth']), F, 0, codes(s['band']), opt(s['l0_centre']), opt(s['centre_param']), []]
+
+    def check_axis(self, ctx):
+        """v1 / v2 / v3: the model's spectral window (translated constructor calls) and the documented axis of the stored
+        attributes; from now on `chan_freqs` (the oracle of every freqs comparison) and the sideband given to the model
+        of the history come from there, not from the data set."""
+        if self.axis is not None:
+            return
+        if self.fmt == 'v4':
+            self.axis = True
+            return self.check_products(ctx, dict(hid=dict(kind='axis'), spec=self.spec, fail_at=0, ops=['open']))
+        case = dict(hid=dict(kind='axis'), spec=self.spec, fail_at=0, ops=['open'])
+        self.check_products(ctx, case)
+        out = ctx.model([self.axis_case])[0]
+        if not out:
+            ctx.disagree('fmt=%s;attr=freqs;what=model_builds_no_window' % self.fmt, case, None, None,
+                         'the model of the reader builds no spectral window for these attributes', kind='tie')
+            self.axis = False
+            return
+        win, model_fq, spec_fq, m_lower, s_lower = out
+        self.axis = dict(model=[unq(p) for p in model_fq], spec=[unq(p) for p in spec_fq], lower=bool(s_lower))
+        if model_fq != spec_fq or m_lower != s_lower:
+            ctx.disagree('fmt=%s;attr=freqs;what=model_vs_spec' % self.fmt, case, model_fq[:4], spec_fq[:4],
+                         'the frequency axis built by the reader (as translated) is not the documented axis of the stored '
+                         'attributes', kind='tie')
+        self.chan_freqs = np.array([float(x) for x in self.axis['spec']])
+        self.upper = not self.axis['lower']
+        got = [Fraction(float(x)) for x in np.asarray(self.d.spectral_windows[0].channel_freqs, dtype=float)]
+        side = int(self.d.spectral_windows[0].sideband)
+        ctx.count('axis=%s:%s' % (self.fmt, self.spec.get('axis', 'old' if self.spec.get('old') else 'plain')))
+        if got != self.axis['spec'] or (side == -1) != self.axis['lower']:
+            what = 'flipped' if got == self.axis['spec'][::-1] else 'differs'
+            if len(got) == len(self.axis['spec']) and got:
+                sh = set(g - e for g, e in zip(got, self.axis['spec']))
+                if len(sh) == 1 and got != self.axis['spec']:
+                    what = 'offset'
+            ctx.disagree('fmt=%s;attr=channel_freqs;axis=%s;what=%s' % (
+                self.fmt, self.spec.get('axis', 'old' if self.spec.get('old') else 'plain'), what), case,
+                [float(x) for x in got[:6]] + [side], [float(x) for x in self.axis['spec'][:6]] + [-1 if self.axis['lower'] else 1],
+                'channel frequencies / sideband of the spectral window are not the documented ones of the stored '
+                'attributes (centre, bandwidth, band, version, L0 attribute, centre_freq argument)',
+                spec=[float(x) for x in self.axis['spec'][:6]])
+
+    def check_products(self, ctx, case):
+        """corr_products of the subarray must be the stored ordering: position b of the stored arrays is the product the
+        file / telstate lists at position b (C01_labels then says corr_products[l] = that list at cp_idx[l])."""
+        ctx.count('products_checked=' + self.fmt)
+        if self.cps_full != self.stored_cps:
+            what = 'permuted' if sorted(self.cps_full) == sorted(self.stored_cps) else 'differs'
+            ctx.disagree('fmt=%s;attr=subarray.corr_products;what=%s' % (self.fmt, what), case, self.cps_full[:6],
+                         self.stored_cps[:6], 'the correlation products of the data set are not the stored product '
+                         'ordering (the labels of the third axis of the stored arrays)', spec=self.stored_cps[:6])
+
+    def model_case(self, atoms, ops):
+        """The wire case of one history: wire_1 (v1 / v2 / v3: cfg + operations); wire_1002 (v4: what is STORED -- shape
+        and telstate attributes of the time and frequency axes --, the preselect slices as given, cfg, operations)."""
+        if self.fmt != 'v4':
+            return [1, [self.cfg_wire(atoms), ops]]
+        s = self.spec
+        timing = [q(V4_SYNC), q(V4_FIRST), q(s['dt']), q(s['off']), [], 0, 1]      # lite RDB (no CBF attributes)
+        store = [self.stored_T, self.stored_F, self.B, timing, q(V4_CENTRE), q(V4_CW * self.stored_F)]
+        pre = self.pre or {}
+        sl = [[c02._opt(v) for v in pre[k]] if k in pre else [] for k in ('dumps', 'channels')]
+        return [1002, [store, sl[0], sl[1], self.cfg_wire(atoms), ops]]
 
     def reset(self):
         d = self.ob.fresh()
@@ -411,16 +622,26 @@ def wire_selarg(v):
 SKIPPED = []
 
 
-def build_fixture(rng, fmt, tries=12):
+class OpenFailed(Exception):
+    """Writing succeeded but opening the data set (a valid file / a valid preselection) raised."""
+
+    def __init__(self, spec, exc):
+        Exception.__init__(self, repr(exc))
+        self.spec, self.exc = spec, exc
+
+
+def build_fixture(rng, fmt, tries=12, want=None):
     """A fixture of the given format from rng; specs outside C02's vocabulary / frequency grid are skipped."""
     last = None
     for _ in range(tries):
-        spec = gen_spec(rng, fmt)
+        spec = gen_spec(rng, fmt, want)
         try:
             return Fixture(spec)
         except AssertionError as e:
             last = e
             SKIPPED.append((fmt, repr(e)[:80]))
+        except (IndexError, ValueError, KeyError, TypeError, AttributeError, ZeroDivisionError) as e:
+            raise OpenFailed(spec, e)
     raise RuntimeError('no usable %s observation model in %d tries: %r' % (fmt, tries, last))
 
 
@@ -465,6 +686,10 @@ def gen_axis_index(rng, n, rich):
 def gen_ix2(rng, shape, rich):
     naxes = rng.choice([0, 1, 2, 3, 3, 3]) if len(shape) == 3 else rng.choice([0, 1, 1])
     items = [gen_axis_index(rng, shape[a], rich) for a in range(naxes)]
+    if len(shape) == 3 and all(n > 0 for n in shape) and rng.random() < 0.07:
+        # one element: a scalar on every axis (the answer is 0-dimensional, or (1, 1, 1) under keepdims)
+        zs = [rng.randint(-n, n - 1) for n in shape]
+        items = [(z, [0, z], 'int' if z >= 0 else 'negint', z >= 0) for z in zs]
     py = tuple(i[0] for i in items)
     wire = [i[1] for i in items]
     forms = [i[2] for i in items]
@@ -625,7 +850,8 @@ def run_impl(fx, rng, nops, script=None):
             except Exception as e:      # noqa: BLE001
                 exc = e
             ops.append([2, idn, wire])
-            log.append(dict(op='index', id=idn, kind=kind, arr=arr, exc=repr(exc) if exc else None, forms=forms,
+            log.append(dict(op='index', id=idn, kind=kind, arr=arr, exc=repr(exc) if exc else None, forms=forms, wire=wire,
+                            true_shape=None if arr is None else [int(v) for v in arr.shape],
                             basic=basic, stale=at < nsel, acq_shape=shape,
                             desc=['index', idn, kind, describe_ix(py)]))
         else:
@@ -658,11 +884,21 @@ def compare_history(ctx, fx, ops, log, mouts, hid, note=True):
     hkey = repr(sorted(hid.items()))
     descs = [e['desc'] for e in log]
     tsmap = None
+    ts_of_label = {}
     acq_conv = []
     sel_state = 'all'
 
     def case(n):
         return dict(hid=hid, fail_at=n, spec=fx.spec, ops=descs[:n + 1])
+
+    # the dimensionality of every answered read (v2 / v3 incl. keepdims, v4): wire_1004 on the canonical spec shape
+    dims = {}
+    if fmt != 'v1':
+        want = [(n, e) for n, e in enumerate(log) if e['op'] == 'index' and n < len(mouts) and e.get('arr') is not None
+                and mouts[n][1][0] == 1]
+        outs = ctx.model([[1004, [FMT_ID[fmt], int(bool(fx.spec.get('keepdims'))), KIND_ID[e['kind']], e['wire'],
+                                  mouts[n][1][1]]] for n, e in want]) if want else []
+        dims = dict((n, o) for (n, e), o in zip(want, outs))
 
     for n, e in enumerate(log):
         if n >= len(mouts):
@@ -691,13 +927,28 @@ def compare_history(ctx, fx, ops, log, mouts, hid, note=True):
                 ctx.disagree('fmt=%s;op=observe;what=raises' % fmt, case(n), e.get('exc'), 'ok',
                              'reading the public attributes / timestamps / sensors raised')
                 return
-            mshape, mdumps, mchans, mcps, (model_ts, mts), mlens, mfreq, msens, (mcache, meval, msynth) = mo
+            mshape, mdumps, mchans, mcps, (model_ts, mts), mlens, mfreq, msens, (mcache, meval, msynth) = mo[:9]
+            if fmt == 'v4':
+                # opened on a subset of what is stored (wire_1002): the spec side is the DOCUMENTED frequency / time of
+                # the stored channels c + channels[.] / stored dumps a + dumps[.], from the telstate attributes
+                (model_fq, spec_fq), (model_ts4, mts), (sdumps, schans) = mo[9:12]
+                if model_fq != spec_fq:
+                    ctx.disagree('fmt=v4;attr=freqs;what=model_vs_spec', case(n), model_fq[:4], spec_fq[:4],
+                                 'frequencies of the spectral window as built by the source (SpectralWindow.subrange of '
+                                 'the preselected channels) differ from the documented ones of the stored channels',
+                                 kind='tie')
+                if model_ts4 != model_ts:
+                    ctx.disagree('fmt=v4;attr=timestamps;what=model_inconsistent', case(n), model_ts4[:4], model_ts[:4],
+                                 'the two timestamp outputs of the model differ', kind='tie')
+                compare_stored_axes(ctx, fx, case(n), ob, [unq(p) for p in spec_fq], sdumps, schans, mchans, mdumps)
             if model_ts != mts:
                 ctx.disagree('fmt=%s;attr=timestamps;what=model_vs_spec' % fmt, case(n), model_ts[:4], mts[:4],
                              'timestamp conversion found in the source differs from the documented one', kind='tie')
             mts = [unq(p) for p in mts]
             if tsmap is None:
                 tsmap = mts            # conv_t of every stored timestamp (first observation: everything selected)
+                # label of a timestamps read -> time (v4: labels are STORED dump numbers)
+                ts_of_label = dict(zip(mo[11][0], mts)) if fmt == 'v4' else dict(enumerate(mts))
             checks = [('shape', ob['shape'], mshape), ('dumps', ob['dumps'], mdumps), ('channels', ob['channels'], mchans),
                       ('corr_products', ob['cps'], mcps), ('timestamps', ob['timestamps'], mts),
                       ('lens', ob['lens'], mlens), ('shape_vs_lens', ob['shape'], ob['lens'])]
@@ -800,9 +1051,22 @@ def compare_history(ctx, fx, ops, log, mouts, hid, note=True):
             ctx.disagree(sig0 + ';what=' + symptom, case(n), list(arr.shape), shape,
                          'answer has %d elements, the selection x index has %d' % (arr.size, size), spec=shape)
             continue
+        if n in dims:
+            # C01_answer_dimensions: scalar-indexed axes are dropped, unless the v2 / v3 data set was opened with
+            # keepdims=True, which keeps all three axes of vis / flags / weights
+            a_shape, np_shape, old_flags = dims[n]
+            nsc = sum(1 for f in e['forms'] if f in ('int', 'negint'))
+            ctx.count('dims=%s:keepdims=%d:scalars=%d' % (fmt, int(bool(fx.spec.get('keepdims'))), nsc))
+            if e['true_shape'] != a_shape:
+                before = kind == 'flags' and e['true_shape'] == old_flags and old_flags != a_shape
+                ctx.disagree('fmt=%s;kind=%s;keepdims=%d;scalars=%d;what=%s' % (
+                    fmt, kind, int(bool(fx.spec.get('keepdims'))), nsc,
+                    'answer_dims_flags_mask_axis' if before else 'answer_dims'), case(n), e['true_shape'], a_shape,
+                    'the answer has the right elements but not the documented dimensionality (a scalar index drops its '
+                    'axis; keepdims=True keeps all three axes of vis / flags / weights)', spec=a_shape)
         arr = arr.reshape(shape)
         if kind == 'timestamps':
-            exp = [tsmap[l] for l in labels]
+            exp = [ts_of_label[l] for l in labels]
             got = [Fraction(float(t)) for t in arr.ravel()]
             ok = got == exp
             exp_show = [float(t) for t in exp[:6]]
@@ -822,6 +1086,34 @@ def compare_history(ctx, fx, ops, log, mouts, hid, note=True):
         if note:
             ctx.note_case((hkey, n), nontrivial=(e['stale'] or sel_state == 'part') and size > 0,
                           sample=dict(fmt=fmt, ops=descs[max(0, n - 3):n + 1], shape=shape, labels=labels[:8], conv=cv))
+
+
+def compare_stored_axes(ctx, fx, case, ob, spec_fq, sdumps, schans, mchans, mdumps):
+    """v4: the clause "freqs are the labels of those same channels" against what is STORED: d.freqs[j] must be the
+    documented frequency center_freq + (k - n_chans // 2) * bandwidth / n_chans of the stored channel
+    k = c + channels[j] whose samples the reads deliver (exact: all values are dyadic)."""
+    a, b, c, d = fx.sub
+    keys = '+'.join(sorted(fx.pre)) if fx.pre else ('empty' if fx.pre is not None else 'no')
+    if schans != [c + j for j in mchans] or sdumps != [a + i for i in mdumps]:
+        ctx.disagree('fmt=v4;attr=stored_coordinates;what=model_vs_harness', case, [sdumps, schans],
+                     [[a + i for i in mdumps], [c + j for j in mchans]],
+                     'stored coordinates named by the model differ from offset + data set coordinates', kind='tie')
+    got = [Fraction(float(x)) for x in np.asarray(ob['freqs'], dtype=float).ravel()]
+    if got != spec_fq:
+        cw = Fraction(V4_CW)
+        shift = set((g - e) / cw for g, e in zip(got, spec_fq)) if len(got) == len(spec_fq) and got else set()
+        if len(shift) == 1 and list(shift)[0].denominator == 1:
+            what = 'shifted_by_%+d_channels' % int(list(shift)[0])
+        else:
+            what = 'differs'
+        ctx.count('freqs_violation:F_%s;first+last_%s' % ('odd' if fx.stored_F % 2 else 'even', 'odd' if (c + d) % 2 else 'even'))
+        ctx.disagree('fmt=v4;attr=freqs;preselect=%s;what=%s' % (keys, what), case,
+                     [float(x) for x in got[:6]], [float(x) for x in spec_fq[:6]],
+                     'd.freqs are not the documented frequencies of the STORED channels %r that vis / flags / weights '
+                     'deliver (stored n_chans = %d, preselected channels %d:%d)' % (schans[:6], fx.stored_F, c, d),
+                     spec=[float(x) for x in spec_fq[:6]])
+    ctx.count('v4_axes:preselect=%s' % keys)
+    ctx.count('v4_axes:F_%s;first+last_%s' % ('odd' if fx.stored_F % 2 else 'even', 'odd' if (c + d) % 2 else 'even'))
 
 
 def compare_sensors(ctx, fx, case, ob, mts, tsmap, mdumps, mcache, meval, msynth):
@@ -905,8 +1197,9 @@ def type_of_exc(s):
 
 def run_one(ctx, fx, hseed, nops, hid, note=True, script=None):
     rng = random.Random(hseed)
+    fx.check_axis(ctx)
     ops, log, atoms = run_impl(fx, rng, nops, script=script)
-    mcase = [1, [fx.cfg_wire(atoms), ops]]
+    mcase = fx.model_case(atoms, ops)
     mouts = ctx.model([mcase])[0]
     compare_history(ctx, fx, ops, log, mouts, hid, note=note)
     return mcase, mouts
@@ -945,7 +1238,10 @@ def run_witness(ctx, w):
     with ix items: "full", an int, {"slice": [a, b, c]}."""
     if 'script' not in w:
         return open_witness(ctx, w)
-    fx = Fixture(w['spec'], tag='c01w')
+    try:
+        fx = Fixture(w['spec'], tag='c01w')
+    except (IndexError, ValueError, KeyError, TypeError, AttributeError, ZeroDivisionError) as e:
+        return report_open_failed(ctx, OpenFailed(w['spec'], e), dict(kind='witness', witness=w))
     try:
         fx.reset()
         script = []
@@ -988,11 +1284,28 @@ def open_witness(ctx, w):
 # ---------------------------------------------------------------------------------------------------------------
 # entry points
 
+def report_open_failed(ctx, e, hid):
+    """A written data set of the generated (in-domain) observation model, opened with a valid non-empty preselection
+    or none, must open: nothing can be read from a data set that refuses to."""
+    spec = e.spec
+    pre = spec.get('pre')
+    keys = '+'.join(sorted(pre)) if pre else ('empty' if pre is not None else 'no')
+    ctx.count('open_raises')
+    ctx.disagree('fmt=%s;what=open_raises;preselect=%s;exc=%s' % (spec['fmt'], keys, type(e.exc).__name__),
+                 dict(hid=hid, fail_at=0, spec=spec, ops=['open' + (' preselect=%r' % pre if pre is not None else '')]),
+                 repr(e.exc), 'opens', 'opening the data set (valid file / valid non-empty preselection) raised',
+                 spec='opens')
+
+
 def fixture_plan(ctx):
     """(format, number of data sets, histories per data set)."""
     nf = ctx.scale(5, 30)
     nh = ctx.scale(24, 80)
-    return [(fmt, nf, nh) for fmt in FMTS]
+    # v4: more data sets (opened with / without a preselection), fewer histories on each
+    # v2 / v3: the frequency-axis variants (old v2 files; v3 receiver bands, fake UHF, faulty bandwidth, overrides)
+    plan = dict(v1=(nf, nh), v2=(ctx.scale(7, 30), ctx.scale(18, 80)), v3=(ctx.scale(10, 40), ctx.scale(12, 60)),
+                v4=(ctx.scale(12, 48), ctx.scale(12, 50)))
+    return [(fmt,) + plan[fmt] for fmt in FMTS]
 
 
 def run(ctx):
@@ -1009,8 +1322,23 @@ def run(ctx):
     for fmt, nf, nh in fixture_plan(ctx):
         for k in range(nf):
             fseed = rng.randrange(1 << 30)
-            fx = build_fixture(random.Random(fseed), fmt)
+            # v4: the first data sets of a run cover the four parity strata of (stored channel count, first + last of
+            # the preselected channel range); the others are drawn freely (with / without preselection, any keys)
+            want = [k & 1, (k >> 1) & 1] if fmt == 'v4' and k < 4 else None
+            if fmt == 'v3' and k < len(V3_AXES) + 2:
+                # every frequency-axis kind once without overrides, then two data sets with BOTH overrides (L0
+                # center_freq attribute and centre_freq= argument)
+                want = [k, 0] if k < len(V3_AXES) else [rng.randrange(3), 1]
+            try:
+                fx = build_fixture(random.Random(fseed), fmt, want=want)
+            except OpenFailed as e:
+                report_open_failed(ctx, e, dict(fmt=fmt, fseed=fseed, hseed=0, nops=0, **(dict(want=want) if want else {})))
+                continue
             ctx.count('datasets=' + fmt)
+            if fmt == 'v4':
+                ctx.count('datasets=v4:preselect=%s' % ('+'.join(sorted(fx.pre)) or 'empty' if fx.pre is not None else 'no'))
+                ctx.count('datasets=v4:stored_F_%s;first+last_%s' % ('odd' if fx.stored_F % 2 else 'even',
+                                                                     'odd' if (fx.sub[2] + fx.sub[3]) % 2 else 'even'))
             for key in ('dup', 'keepdims', 'lower', 'centroid'):
                 if fx.spec.get(key):
                     ctx.count('quirk=%s:%s' % (fmt, key))
@@ -1019,7 +1347,10 @@ def run(ctx):
                 for j in range(nh):
                     hseed = rng.randrange(1 << 30)
                     nops = random.Random(hseed).randint(8, 16)
-                    mcase, mouts = run_one(ctx, fx, hseed, nops, dict(fmt=fmt, fseed=fseed, hseed=hseed, nops=nops))
+                    hid = dict(fmt=fmt, fseed=fseed, hseed=hseed, nops=nops)
+                    if want is not None:
+                        hid['want'] = want
+                    mcase, mouts = run_one(ctx, fx, hseed, nops, hid)
                     if len(sample_cases) < 40 and j < 3:
                         sample_cases.append((mcase, mouts))
                     ctx.count('histories')
@@ -1050,7 +1381,10 @@ def replay(ctx, doc):
         return run_witness(ctx, hid['witness'])
     if 'witness' in case:
         return run_witness(ctx, case['witness'])
-    fx = build_fixture(random.Random(hid['fseed']), hid['fmt'])
+    try:
+        fx = build_fixture(random.Random(hid['fseed']), hid['fmt'], want=hid.get('want'))
+    except OpenFailed as e:
+        return report_open_failed(ctx, e, hid)
     try:
         run_one(ctx, fx, hid['hseed'], hid['nops'], hid)
     finally:
